@@ -321,7 +321,12 @@ def unit_bed12(U):
                     # children() was asked for the block types ordered by start
                     calls = st["calls"]
                     okc = len(calls) >= 1 and calls[0][1].get("order_by") == "start" and calls[0][1].get("featuretype") == ["exon"]
-                    U.prove(base + ".order#p%d" % p.index, "blocks are the children of the block featuretype in ascending start order (children(order_by='start'))", [], z3.BoolVal(okc), {}, replay=replay)
+                    if thick_mode in ("thick", "thin"):
+                        want_ft = ["CDS"] if thick_mode == "thick" else ["five_prime_UTR"]
+                        okc = okc and len(calls) == 2 and calls[1][1].get("order_by") == "start" and calls[1][1].get("featuretype") == want_ft
+                    else:
+                        okc = okc and len(calls) == 1
+                    U.prove(base + ".order#p%d" % p.index, "blocks and thick/thin features are the children of the respective featuretype in ascending start order (children(order_by='start')), so first/last are left-most/right-most", [], z3.BoolVal(okc), {}, replay=replay)
 
 
 def unit_to_bed12(U):
